@@ -7,7 +7,7 @@ Model and configuration as in C09 (`PtVerif.Model.Lazy`, `PtGen.lazyConfig`, reg
 source on every run).  Histories range over the public table (0) and two private tables (1, 2):
 table creation (no effect on the lazy state), `module.init(T)` for the nine inits in any order
 relative to any use of the public table, reads / `hasattr` on any table, assignment and in-place
-mutation on atoms of private tables – `runOK`.  Excluded by `runOK` (finding D19): in-place
+mutation on atoms of private tables – `runOK`.  Excluded by `runOK` (finding D20): in-place
 mutation of a class-level default object (the `Neutron()` placeholder that `Element.neutron` /
 `Isotope.neutron` point to is one object for all tables); the full statement without that
 exclusion is `public_unchanged_full`, refuted by `public_unchanged_counterexample`.
@@ -124,9 +124,9 @@ theorem no_public_user_values (c : Config) (hsafe : SafeCfg tables3 c = true) (h
     userVal (run c c.init h).log 0 node p = none :=
   userVal_public (ginv_run hsafe h _ (ginv_init hsafe) hok (fun _ _ _ => hsh)).log node p
 
-/-! ## the full statement, and why it is only proved with the exclusion (finding D19) -/
+/-! ## the full statement, and why it is only proved with the exclusion (finding D20) -/
 
-/-- events without the D19 exclusion -/
+/-- events without the D20 exclusion -/
 def evOKFull : Event → Prop
   | .read t _ _ => t ∈ tables3
   | .has t _ _ => t ∈ tables3
